@@ -7,7 +7,7 @@ from sa.engine.callgraph import _local_assignments, calls_in, resolve_call
 from sa.engine.consts import UNKNOWN
 from sa.engine.context import Ctx
 from sa.engine.guards import path_conditions
-from sa.engine.loader import AnalysisError, dotted, norm, short, walk_own
+from sa.engine.loader import anorm, local_names, AnalysisError, dotted, norm, short, walk_own
 from sa.engine.report import Finding, RuleReport
 from sa.rules.c01 import _handler_names, _is_log_only, _nonraising
 from sa.rules.common import X, exception_family
@@ -30,7 +30,7 @@ NOT_DECIDED = ["identity of member content with direct extraction (bytes, decomp
 TRUSTED = ["zipfile.infolist / tarfile.getmembers return members in archive order", "CFG / lexical path conditions"]
 FLOORS = {"C10-EXACT": 8, "C10-CODEC": 6, "C10-LABEL": 10, "C10-ORDER": 4, "C10-SIB": 6, "C10-FOLDER": 1, "C10-DISPATCH": 6}
 
-READS = {"_extract_from_zip_optimized": ("zf.read", "info"), "_extract_from_tar_optimized": ("tf.extractfile", "member")}
+READS = {"_extract_from_zip_optimized": ("read", "info"), "_extract_from_tar_optimized": ("extractfile", "member")}  # method that reads one member
 
 
 def _pe_calls(ctx):
@@ -118,8 +118,18 @@ def rule_label(ctx: Ctx) -> RuleReport:
         if fi.qual == "_process_7z_files_sequential":
             # bytes are re-read from the extraction directory under this member's name
             defs = inloop.get(fd.id, []) if isinstance(fd, ast.Name) else []
-            path_ok = any("filename" in {n.id for n in ast.walk(v) if isinstance(n, ast.Name)} for v in inloop.get("extracted_path", []))
-            if path_ok and defs and all("extracted_file.read()" in norm(v) for v in defs):
+            # the bytes are <f>.read() of a file opened on a path computed from this member's name
+            opened = {}  # with open(P, ..) as F  ->  F: P
+            for w in ast.walk(ast.Module(body=loop.body, type_ignores=[])):
+                if isinstance(w, ast.With):
+                    for it in w.items:
+                        if isinstance(it.optional_vars, ast.Name) and isinstance(it.context_expr, ast.Call) and dotted(it.context_expr.func) == "open" and it.context_expr.args:
+                            opened[it.optional_vars.id] = it.context_expr.args[0]
+            def reads_member(v):
+                return isinstance(v, ast.Call) and isinstance(v.func, ast.Attribute) and v.func.attr == "read" and isinstance(v.func.value, ast.Name) and v.func.value.id in opened \
+                    and bool(origin(opened[v.func.value.id]) & fn_origin)
+            path_ok = bool(defs)
+            if path_ok and defs and all(reads_member(v) for v in defs):
                 rep.ok({"site": fi.qual, "bytes_from": "file written for this member name"})
             else:
                 rep.fail(Finding("C10-LABEL", ARCH, fi.qual, short(c), "7z member bytes are not read back from the file extracted under this member's name", line=c.lineno))
@@ -128,7 +138,7 @@ def rule_label(ctx: Ctx) -> RuleReport:
         else:
             rep.fail(Finding("C10-LABEL", ARCH, fi.qual, short(c), f"the bytes passed (`{norm(fd) if fd else '?'}`, from {sorted(fd_or)}) do not come from the member whose name is passed (from {sorted(fn_origin)})", line=c.lineno))
         ap = args.get("archive_path")
-        if isinstance(ap, ast.Name) and ap.id == "archive_path":
+        if isinstance(ap, ast.Name) and ap.id in {a.arg for a in fi.node.args.args + fi.node.args.kwonlyargs}:
             rep.ok()
         else:
             rep.fail(Finding("C10-LABEL", ARCH, fi.qual, short(c), "the archive path is not passed through to the per-member step", line=c.lineno))
@@ -139,28 +149,47 @@ def rule_label(ctx: Ctx) -> RuleReport:
     if not body_try:
         raise AnalysisError("C10-LABEL: _process_archive_entry has no try body")
     stmts = body_try[0].body
-    txt = [norm(s) for s in stmts]
-    want = ["full_path = f'{archive_path}!/{filename}' if archive_path else filename", "extractor = _get_file_extractor_cached(basename)", "file_bytes = io.BytesIO(file_data)"]
+    txt = [anorm(s, pe.node) for s in stmts]
+    want = ["v0 = f'{archive_path}!/{filename}' if archive_path else filename", "v0 = _get_file_extractor_cached(basename)", "v0 = io.BytesIO(file_data)"]
     for w in want:
         if w in txt:
             rep.ok({"_process_archive_entry": w})
         else:
-            rep.fail(Finding("C10-LABEL", ARCH, pe.qual, w, f"the per-member step no longer performs `{w}`", line=pe.node.lineno))
+            rep.fail(Finding("C10-LABEL", ARCH, pe.qual, w, f"the per-member step no longer performs `{w}` (v0 = a local)", line=pe.node.lineno))
+    def _var_of(rhs_anorm):
+        for st_ in stmts:
+            if isinstance(st_, ast.Assign) and len(st_.targets) == 1 and isinstance(st_.targets[0], ast.Name) and anorm(st_, pe.node) == rhs_anorm:
+                return st_.targets[0].id
+        return None
+    v_path, v_ext, v_bytes = _var_of(want[0]), _var_of(want[1]), _var_of(want[2])
     loops = [n for n in stmts if isinstance(n, ast.For)]
-    if loops and norm(loops[0].iter) == "extractor(file_bytes, path=full_path)" and norm(loops[0].body[0]) == "yield content":
+    good_loop = False
+    if loops and isinstance(loops[0].iter, ast.Call) and isinstance(loops[0].iter.func, ast.Name) and isinstance(loops[0].target, ast.Name):
+        it = loops[0].iter
+        kw = {k.arg: norm(k.value) for k in it.keywords}
+        good_loop = it.func.id == v_ext and len(it.args) == 1 and norm(it.args[0]) == v_bytes and kw == {"path": v_path} and norm(loops[0].body[0]) == f"yield {loops[0].target.id}"
+    if good_loop:
         rep.ok({"_process_archive_entry": "yields every result of extractor(file_bytes, path=full_path)"})
     else:
         rep.fail(Finding("C10-LABEL", ARCH, pe.qual, norm(loops[0].iter) if loops else "no loop", "the per-member step does not yield every result of extractor(<member bytes>, path=<archive!/member>)", line=pe.node.lineno))
     # 7z / zip work lists are built from (info, filename, basename) of one member
     for fnq in ("_extract_from_zip_optimized", "_extract_from_7z_optimized"):
         f = ctx.p.func(ARCH, fnq)
-        apps = [x for x in calls_in(f) if isinstance(x.func, ast.Attribute) and x.func.attr == "append" and norm(x.func.value) == "files_to_process"]
+        apps = [x for x in calls_in(f) if isinstance(x.func, ast.Attribute) and x.func.attr == "append" and isinstance(x.func.value, ast.Name) and x.args and isinstance(x.args[0], ast.Tuple) and len(x.args[0].elts) == 3]
+        if not apps:
+            raise AnalysisError(f"C10-LABEL: work list of {fnq} (3-tuples appended in the listing loop) not found")
         for a in apps:
-            el = a.args[0] if a.args else None
+            el = a.args[0]
             loop = _enclosing_loop(f.node, a)
             lv = norm(loop.target) if loop is not None else "?"
-            if isinstance(el, ast.Tuple) and len(el.elts) == 3 and norm(el.elts[0]) == lv and norm(el.elts[1]) == "filename" and norm(el.elts[2]) == "basename":
-                rep.ok({fnq: f"work list entries ({lv}, filename, basename)"})
+            inl = {}
+            for n in ast.walk(ast.Module(body=loop.body if loop is not None else [], type_ignores=[])):
+                if isinstance(n, ast.Assign) and len(n.targets) == 1 and isinstance(n.targets[0], ast.Name):
+                    inl.setdefault(n.targets[0].id, []).append(n.value)
+            name_ok = isinstance(el.elts[1], ast.Name) and any(isinstance(v, ast.Attribute) and v.attr in ("filename", "name") and norm(v.value) == lv for v in inl.get(el.elts[1].id, []))
+            base_ok = isinstance(el.elts[2], ast.Name) and any(isinstance(v, ast.Call) and dotted(v.func) == "os.path.basename" and v.args and norm(v.args[0]) == norm(el.elts[1]) for v in inl.get(el.elts[2].id, []))
+            if norm(el.elts[0]) == lv and name_ok and base_ok:
+                rep.ok({fnq: "work list entries (member, its name, its base name)"})
             else:
                 rep.fail(Finding("C10-LABEL", ARCH, fnq, short(a), "work-list entries are not (member, its name, its base name)", line=a.lineno))
     return rep
@@ -171,18 +200,38 @@ def rule_order(ctx: Ctx) -> RuleReport:
     seqs = {"infolist", "getmembers", "list"}
     for rel in (ARCH,):
         for fi in ctx.p.module(rel).functions.values():
+            # member sequences of this function: results of the listing calls, and local lists filled inside a loop over such a sequence
+            member_lists = set()
+            for n in walk_own(fi.node):
+                if isinstance(n, ast.Assign) and len(n.targets) == 1 and isinstance(n.targets[0], ast.Name) and isinstance(n.value, ast.Call) and isinstance(n.value.func, ast.Attribute) and n.value.func.attr in seqs:
+                    member_lists.add(n.targets[0].id)
+            changed = True
+            while changed:
+                changed = False
+                for n in walk_own(fi.node):
+                    if isinstance(n, ast.For):
+                        over = norm(n.iter)
+                        is_member_loop = (isinstance(n.iter, ast.Call) and isinstance(n.iter.func, ast.Attribute) and n.iter.func.attr in seqs) or over in member_lists
+                        if is_member_loop:
+                            for x in ast.walk(n):
+                                if isinstance(x, ast.Call) and isinstance(x.func, ast.Attribute) and x.func.attr == "append" and isinstance(x.func.value, ast.Name) and x.func.value.id not in member_lists:
+                                    member_lists.add(x.func.value.id)
+                                    changed = True
+            member_lists |= {a.arg for a in fi.node.args.args if a.arg in ("file_list", "members", "files_to_process")}
             for n in walk_own(fi.node):
                 if isinstance(n, ast.Call):
                     d = dotted(n.func) or ""
                     if d in ("sorted", "reversed", "set", "frozenset", "random.shuffle") and n.args:
-                        inner = norm(n.args[0])
-                        if any(s in inner for s in ("infolist", "getmembers", "file_list", "files_to_process", "szf.list", "members")):
+                        inner = n.args[0]
+                        names = {x.id for x in ast.walk(inner) if isinstance(x, ast.Name)}
+                        listing = any(isinstance(x, ast.Call) and isinstance(x.func, ast.Attribute) and x.func.attr in seqs for x in ast.walk(inner))
+                        if listing or names & member_lists:
                             rep.fail(Finding("C10-ORDER", rel, fi.qual, short(n), "the member sequence is reordered: results no longer come in archive order", line=n.lineno))
-                    if isinstance(n.func, ast.Attribute) and n.func.attr in ("sort", "reverse") and norm(n.func.value) in ("files_to_process", "file_list", "members"):
+                    if isinstance(n.func, ast.Attribute) and n.func.attr in ("sort", "reverse") and isinstance(n.func.value, ast.Name) and n.func.value.id in member_lists:
                         rep.fail(Finding("C10-ORDER", rel, fi.qual, short(n), "the member work list is reordered in place", line=n.lineno))
                 if isinstance(n, ast.For) and isinstance(n.iter, ast.Call) and isinstance(n.iter.func, ast.Attribute) and n.iter.func.attr in seqs:
                     rep.ok({"loop": f"{fi.qual}: for {norm(n.target)} in {norm(n.iter)}", "order": "as listed"})
-                if isinstance(n, ast.For) and norm(n.iter) in ("files_to_process", "file_list"):
+                if isinstance(n, ast.For) and isinstance(n.iter, ast.Name) and n.iter.id in member_lists:
                     rep.ok({"loop": f"{fi.qual}: for {norm(n.target)} in {norm(n.iter)}", "order": "as built"})
     # the 7z file list is handed out as parsed
     lst = ctx.p.func(SZ, "SevenZipReader.list")
@@ -221,7 +270,7 @@ def rule_sib(ctx: Ctx) -> RuleReport:
         # the read of the member is inside the same try
         rd = READS.get(fi.qual)
         if rd:
-            rc = [x for x in calls_in(fi) if norm(x.func) == rd[0]]
+            rc = [x for x in calls_in(fi) if isinstance(x.func, ast.Attribute) and x.func.attr == rd[0] and isinstance(x.func.value, ast.Name)]
             for x in rc:
                 if any(y is x for st in t.body for y in ast.walk(st)):
                     rep.ok({"loop": fi.qual, "read_inside_try": norm(x.func)})
@@ -320,8 +369,14 @@ def rule_dispatch(ctx: Ctx) -> RuleReport:
             rep.fail(Finding("C10-DISPATCH", ARCH, "MAGIC_SIGNATURES", f"{magic!r}, {t}, {length}", "declared signature length differs from the signature: the prefix comparison can never / always match"))
     ra = ctx.p.func(ARCH, "read_archive")
     handled = set()
+    # the local that holds the detected type: assigned from the detector call
+    tvars = {n.targets[0].id for n in walk_own(ra.node) if isinstance(n, ast.Assign) and len(n.targets) == 1 and isinstance(n.targets[0], ast.Name)
+             and isinstance(n.value, ast.Call) and (dotted(n.value.func) or "").endswith("_detect_archive_type_optimized")}
+    if len(tvars) != 1:
+        raise AnalysisError(f"C10-DISPATCH: read_archive no longer keeps the detector result in one local ({sorted(tvars)})")
+    TV = next(iter(tvars))
     for n in walk_own(ra.node):
-        if isinstance(n, ast.Compare) and norm(n.left) == "archive_type" and len(n.ops) == 1:
+        if isinstance(n, ast.Compare) and norm(n.left) == TV and len(n.ops) == 1:
             v = ctx.folder.fold(ra.module, n.comparators[0])
             if isinstance(n.ops[0], ast.Eq) and isinstance(v, str):
                 handled.add(v)
@@ -346,7 +401,7 @@ def rule_dispatch(ctx: Ctx) -> RuleReport:
 
     def _mode_ok(a):
         return (isinstance(a, ast.JoinedStr) and len(a.values) == 2 and isinstance(a.values[0], ast.Constant) and a.values[0].value == "r:"
-                and isinstance(a.values[1], ast.FormattedValue) and norm(a.values[1].value) in ("archive_type.split('.')[-1]", 'archive_type.split(".")[-1]'))
+                and isinstance(a.values[1], ast.FormattedValue) and norm(a.values[1].value) in (f"{TV}.split('.')[-1]", f'{TV}.split(".")[-1]'))
 
     if mode_args and all(_mode_ok(a) for a in mode_args):
         rep.ok({"tar_mode_expr": modes[0]})
@@ -361,14 +416,15 @@ def _disjuncts(test):
         for v in test.values:
             out.extend(_disjuncts(v))
         return out
-    return [norm(test)]
+    return [test]
 
 
+# clauses in terms of the two parameters (p0 = member name, p1 = base name); v0.. = locals
 SKIP_CLAUSES = {
-    "basename.startswith('.')": "hidden file",
-    "filename.startswith('__MACOSX/')": "macOS resource fork",
-    "not _is_supported_file_cached(basename)": "unsupported type",
-    "any((ext.endswith(archive_ext) for archive_ext in NESTED_ARCHIVE_EXTENSIONS))": "nested archive",
+    "p1.startswith('.')": "hidden file",
+    "p0.startswith('__MACOSX/')": "macOS resource fork",
+    "not _is_supported_file_cached(p1)": "unsupported type",
+    "any((v0.endswith(v1) for v1 in NESTED_ARCHIVE_EXTENSIONS))": "nested archive (v0 = lower-cased base name)",
 }
 
 
@@ -377,9 +433,21 @@ def rule_exact(ctx: Ctx) -> RuleReport:
     sk = ctx.p.func(ARCH, "_should_skip_file")
     rep.unit(sk.key)
     found = []
+    prm = [a.arg for a in sk.node.args.args]
+    if len(prm) != 2:
+        raise AnalysisError(f"C10-EXACT: _should_skip_file no longer takes (member name, base name): {prm}")
+    import copy as _copy
+
+    def canon(test):
+        t = _copy.deepcopy(test)
+        for x in ast.walk(t):
+            if isinstance(x, ast.Name) and x.id in prm:
+                x.id = f"p{prm.index(x.id)}"
+        return anorm(t, rename=local_names(sk.node))
+
     for st in sk.node.body:
         if isinstance(st, ast.If) and st.body and isinstance(st.body[-1], ast.Return) and norm(st.body[-1]) == "return True":
-            found.extend(_disjuncts(st.test))
+            found.extend(canon(d) for d in _disjuncts(st.test))
         elif isinstance(st, (ast.For, ast.While, ast.Try, ast.With)):
             raise AnalysisError("C10-EXACT: _should_skip_file is no longer a sequence of `if <clause>: return True`")
     for d in found:
@@ -392,26 +460,45 @@ def rule_exact(ctx: Ctx) -> RuleReport:
     else:
         rep.fail(Finding("C10-EXACT", ARCH, sk.qual, norm(sk.node.body[-1])[:80], "the member filter does not end in `return False` (keep the member)", line=sk.node.lineno))
     # the size tests use strict '>' against the configured per-member limit (a member exactly at the limit is kept)
-    for fnq, attr in (("_extract_from_zip_optimized", "info.file_size"), ("_extract_from_tar_optimized", "member.size"), ("_extract_from_7z_optimized", "file_info.uncompressed")):
+    def member_var(f):
+        """Loop variable of the listing loop (for X in <archive>.infolist() / getmembers() / list())."""
+        for n in walk_own(f.node):
+            if isinstance(n, ast.For) and isinstance(n.iter, ast.Call) and isinstance(n.iter.func, ast.Attribute) and n.iter.func.attr in ("infolist", "getmembers", "list") and isinstance(n.target, ast.Name):
+                return n.target.id
+            if isinstance(n, ast.For) and isinstance(n.iter, ast.Name) and isinstance(n.target, ast.Name) and any(
+                    isinstance(a, ast.Assign) and any(isinstance(t, ast.Name) and t.id == n.iter.id for t in a.targets) and isinstance(a.value, ast.Call) and isinstance(a.value.func, ast.Attribute)
+                    and a.value.func.attr in ("infolist", "getmembers", "list") for a in walk_own(f.node)):
+                return n.target.id
+        raise AnalysisError(f"C10-EXACT: listing loop of {f.qual} not found")
+
+    for fnq, attr in (("_extract_from_zip_optimized", "file_size"), ("_extract_from_tar_optimized", "size"), ("_extract_from_7z_optimized", "uncompressed")):
         f = ctx.p.func(ARCH, fnq)
+        mv = member_var(f)
         tests = [norm(n.test) for n in walk_own(f.node) if isinstance(n, ast.If) and "max_memory_size" in norm(n.test)]
-        if tests == [f"{attr} > _config.max_memory_size"]:
+        if tests == [f"{mv}.{attr} > _config.max_memory_size"]:
             rep.ok({fnq: tests[0]})
         else:
-            rep.fail(Finding("C10-EXACT", ARCH, fnq, "; ".join(tests) or "no size test", f"per-member size test is not `{attr} > _config.max_memory_size`", line=f.node.lineno))
+            rep.fail(Finding("C10-EXACT", ARCH, fnq, "; ".join(tests) or "no size test", f"per-member size test is not `<member>.{attr} > _config.max_memory_size`", line=f.node.lineno))
     # directory / non-regular entries are the only other members dropped before the filter
-    expect_pre = {"_extract_from_zip_optimized": {"info.is_dir()"}, "_extract_from_tar_optimized": {"not member.isreg()"}, "_extract_from_7z_optimized": {"file_info.is_directory"}}
-    for fnq, want in expect_pre.items():
+    expect_pre = {"_extract_from_zip_optimized": {"{m}.is_dir()"}, "_extract_from_tar_optimized": {"not {m}.isreg()"}, "_extract_from_7z_optimized": {"{m}.is_directory"}}
+    for fnq, want0 in expect_pre.items():
         f = ctx.p.func(ARCH, fnq)
+        mv = member_var(f)
+        want = {w.format(m=mv) for w in want0}
         pre = set()
         for n in walk_own(f.node):
             if isinstance(n, ast.If) and n.body and isinstance(n.body[-1], ast.Continue) and "max_memory_size" not in norm(n.test) and "_should_skip_file" not in norm(n.test):
-                pre.add(norm(n.test))
-        extra = pre - want - {"extracted is None"}
+                pre.add(n.test)
+        # `<x> is None` on the stream returned by extractfile(member): the member has no data stream
+        def none_of_extractfile(t):
+            if isinstance(t, ast.Compare) and len(t.ops) == 1 and isinstance(t.ops[0], ast.Is) and isinstance(t.left, ast.Name) and isinstance(t.comparators[0], ast.Constant) and t.comparators[0].value is None:
+                return any(isinstance(a, ast.Assign) and any(isinstance(x, ast.Name) and x.id == t.left.id for x in a.targets) and isinstance(a.value, ast.Call) and isinstance(a.value.func, ast.Attribute) and a.value.func.attr == "extractfile" for a in walk_own(f.node))
+            return False
+        extra = {norm(t) for t in pre if norm(t) not in want and not none_of_extractfile(t)}
         if extra:
             rep.fail(Finding("C10-EXACT", ARCH, fnq, "; ".join(sorted(extra)), f"members are dropped under an undocumented condition: {sorted(extra)}", line=f.node.lineno))
         else:
-            rep.ok({fnq: f"only {sorted(want)} dropped before the filter"})
+            rep.ok({fnq: f"only {sorted(want0)} dropped before the filter"})
     return rep
 
 
@@ -430,6 +517,11 @@ def rule_codec(ctx: Ctx) -> RuleReport:
     if pvar is None:
         raise AnalysisError("C10-CODEC: the LZMA2 property byte is no longer read as properties[0]")
     from sa.engine.consts import UNKNOWN as _U
+    # the local that is handed to the decoder as filter option "dict_size"
+    ds_names = {v.id for d in ast.walk(f2.node) if isinstance(d, ast.Dict) for k_, v in zip(d.keys, d.values) if isinstance(k_, ast.Constant) and k_.value == "dict_size" and isinstance(v, ast.Name)}
+    if len(ds_names) != 1:
+        raise AnalysisError(f"C10-CODEC: the dict_size filter option of _decompress_lzma2 is no longer a single local ({sorted(ds_names)})")
+    DS = next(iter(ds_names))
 
     def run(stmts, env):
         for st in stmts:
@@ -444,14 +536,14 @@ def rule_codec(ctx: Ctx) -> RuleReport:
                 v = ctx.folder.fold(f2.module, st.value, env)
                 if v is not _U:
                     env[st.targets[0].id] = v
-                elif st.targets[0].id == "dict_size":
+                elif st.targets[0].id == DS:
                     raise AnalysisError(f"C10-CODEC: cannot fold `{norm(st.value)}`")
 
     wrong = []
     for k in range(40):
         env = {pvar: k}
         run(f2.node.body, env)
-        got = env.get("dict_size")
+        got = env.get(DS)
         want_v = (2 | (k & 1)) << (k // 2 + 11)
         if got != want_v:
             wrong.append((k, got, want_v))
@@ -462,7 +554,17 @@ def rule_codec(ctx: Ctx) -> RuleReport:
         rep.fail(Finding("C10-CODEC", SZ, f2.qual, "dict_size", f"LZMA2 dictionary size differs from the 7z/xz encoding for {len(wrong)} of 40 property bytes (e.g. p={k}: {got} instead of {want_v}); members packed with those settings decode to corrupt data or fail", line=f2.node.lineno))
     f1 = ctx.p.func(SZ, "SevenZipReader._decompress_lzma")
     txt = [norm(s) for s in f1.node.body]
-    if "lzma_stream = properties[:5] + size_bytes + data" in txt and any(t.startswith("size_bytes = struct.pack('<Q', unpack_size) if unpack_size >= 0 else b'\\xff' * 8") for t in txt):
+    hdr_ok = False
+    for st_ in f1.node.body:
+        if isinstance(st_, ast.Assign) and len(st_.targets) == 1 and isinstance(st_.targets[0], ast.Name) and isinstance(st_.value, ast.BinOp):
+            v = st_.value  # (properties[:5] + <size>) + data
+            if isinstance(v.op, ast.Add) and norm(v.right) == "data" and isinstance(v.left, ast.BinOp) and isinstance(v.left.op, ast.Add) and norm(v.left.left) == "properties[:5]" and isinstance(v.left.right, ast.Name):
+                sz = v.left.right.id
+                for d_ in f1.node.body:
+                    if isinstance(d_, ast.Assign) and len(d_.targets) == 1 and isinstance(d_.targets[0], ast.Name) and d_.targets[0].id == sz:
+                        if anorm(d_.value, f1.node) == "struct.pack('<Q', v0) if v0 >= 0 else b'\\xff' * 8":
+                            hdr_ok = True
+    if hdr_ok:
         rep.ok({"lzma_alone_header": "props[:5] + <Q size (or 8 x 0xFF) + data"})
     else:
         rep.fail(Finding("C10-CODEC", SZ, f1.qual, " ; ".join(txt)[-200:], "LZMA-alone header is not props[:5] + 8-byte little-endian size + data", line=f1.node.lineno))
